@@ -23,6 +23,7 @@ def check(run):
     ec.run_family(run, 'C03-int-column', 'Q_C03num', 'R_numi', maxA=2 if quick else 3)
     ec.run_family(run, 'C03-float-column', 'Q_C03num', 'R_numf', maxA=2 if quick else 3)
     ec.run_family(run, 'C03-zero-negative', 'Q_C03med', 'R_numz', maxA=3)
+    ec.run_family_js(run, 'C03-js-zero-negative', 'Q_C03med', 'R_numz', maxA=3)
     ec.run_family(run, 'C03-misuse', 'Q_C03bad', 'R_num', maxA=2)
     ec.run_family(run, 'C03-builtins', 'Q_C03builtin', 'R_num', maxA=2)
     ec.run_family(run, 'C03-none-constant', 'Q_C03none', 'R_numN', maxA=2 if quick else 3)
